@@ -1486,6 +1486,8 @@ impl Ck {
             (XTy::T(s), tt) if s == tt => true,
             (XTy::T(s), tt) if is_numeric(s) && is_numeric(tt) => true,
             (XTy::T(Ty::Int(_)), Ty::Str) => true,
+            // a slice of bytes converts to a string
+            (XTy::T(Ty::Slice(e)), Ty::Str) if matches!(**e, Ty::Int(IntKind::U8)) => true,
             (XTy::T(s), tt) if self.is_iface(tt) && self.implements(s, tt) => {
                 let xx = x.clone();
                 self.assign_to(arg, &xx, tt, "conversion");
